@@ -32,4 +32,115 @@ class C19(Check):
         return jobs
 
 
-CHECKS = {"C19": C19}
+
+import os, shutil
+import build as _build
+
+WIRE_ASSUME = ["refdns (harness/refdns.hpp) is the independent RFC reference; its 'supported subset' rules are listed in DESIGN.md section 4",
+               "allocation ledger installed through ares_library_init_mem is the per-case leak oracle; ASan+UBSan for memory errors"]
+
+
+def fuzz_job(outdir_name, mode, seed, runs, max_len=2048, corpus_src=None, idx=0):
+    """A libFuzzer job on wire_fuzz.  Fresh corpus directory per run."""
+    cdir = os.path.join(_build.BUILD, "out", outdir_name, "corpus-%s-%d" % (mode, idx))
+    shutil.rmtree(cdir, ignore_errors=True)
+    os.makedirs(cdir, exist_ok=True)
+    n = 0
+    for src in (corpus_src or []):
+        if os.path.isdir(src):
+            for fn in sorted(os.listdir(src)):
+                p = os.path.join(src, fn)
+                if os.path.isfile(p) and os.path.getsize(p) < 70000:
+                    shutil.copy(p, os.path.join(cdir, "%04d" % n)); n += 1
+    args = ["-runs=%d" % runs, "-seed=%d" % seed, "-max_len=%d" % max_len, "-entropic=0", "-timeout=25", "-rss_limit_mb=4096",
+            "-print_final_stats=1", "-artifact_prefix=" + cdir + "/art-", cdir]
+    return ("wire_fuzz", args, {"WIRE_MODE": mode}, None)
+
+
+class WireCheck(Check):
+    harnesses = ["wire_rc", "wire_fuzz"]
+    replay_binary = "wire_rc"
+    assumptions = WIRE_ASSUME
+    PLAN_QUICK = []      # (mode, workers, cases, max_size)
+    PLAN_THOROUGH = []
+    FUZZ_QUICK = []      # (mode, runs, max_len)
+    FUZZ_THOROUGH = []
+    CORPUS = []
+
+    def jobs(self, tier, seed, excludes):
+        jobs = []
+        k = 0
+        for (mode, workers, cases, size) in (self.PLAN_QUICK if tier == "quick" else self.PLAN_THOROUGH):
+            for w in range(workers):
+                jobs.append(("wire_rc", [mode], {}, rc_params(seed * 1000 + k, cases, size)))
+                k += 1
+        fz = self.FUZZ_QUICK if tier == "quick" else self.FUZZ_THOROUGH
+        for i, (mode, runs, max_len) in enumerate(fz):
+            os.makedirs(os.path.join(_build.BUILD, "out", self.pid), exist_ok=True)
+            jobs.append(fuzz_job(self.pid, mode, seed * 1000 + 500 + i, runs, max_len, self.CORPUS if mode.endswith("raw") else None, i))
+        return jobs
+
+
+FUZZIN = [os.path.join(_build.REPO, "test", "fuzzinput"), os.path.join(_build.REPO, "test", "fuzznames")]
+
+
+class C02(WireCheck):
+    pid = "C02"
+    rule = ("inputs = refdns-encoded messages over every RR type and compression layout (gen), the same with 1-3 structured mutations "
+            "(flip, retarget pointer, truncate, splice lengths, section counts: mut), raw bytes, the 74+45 repository corpus files, and buffers padded past 65535; "
+            "each input goes through ares_dns_parse (flag set from the input), all twelve legacy reply parsers with a generated capacity, ares_expand_name/"
+            "ares_expand_string at a generated offset, and on success every getter, ares_dns_write and ares_dns_record_duplicate. "
+            "non-trivial = some parser got past the header to at least one RR or an accepted name used a compression pointer; distinct = distinct case text")
+    required_counters = ["c02.parse_accept", "c02.parse_reject", "c02.accepted_with_pointer", "c02.legacy_a_ok", "c02.expand_name_ok"]
+    PLAN_QUICK = [("C02-gen", 4, 12000, 100), ("C02-mut", 8, 12000, 100), ("C02-raw", 1, 1500, 100)]
+    FUZZ_QUICK = [("C02-mut", 20000, 1024), ("C02-gen", 20000, 1024), ("C02-raw", 1500, 512)]
+    PLAN_THOROUGH = [("C02-gen", 4, 400000, 150), ("C02-mut", 7, 400000, 150), ("C02-raw", 1, 40000, 100)]
+    FUZZ_THOROUGH = [("C02-mut", 3000000, 2048), ("C02-mut", 3000000, 4096), ("C02-gen", 3000000, 2048), ("C02-raw", 150000, 1024)]
+    CORPUS = FUZZIN
+
+
+class C03(WireCheck):
+    pid = "C03"
+    rule = ("(i) records built only through the public setters from a generated message structure (all RR types, escaped RDATA names, shared suffixes; "
+            "'bigbuild' adds bulk records so names first appear beyond offset 16384 and whole messages approach 64 KiB), (ii) records obtained from the parser "
+            "on generated / mutated messages, (iii) 1-3 records written with ares_dns_write_buf_tcp() into a buffer with a generated prefix and consumed part, "
+            "(iv) ares_create_query/ares_mkquery arguments.  Oracle: write ok => <= 65535 bytes, parses with c-ares and with refdns, field-by-field equality of "
+            "getter dumps (original, re-parsed, reference decode), byte-identical re-write, duplicate equal; frames: length prefix == body and body parses stand-alone. "
+            "non-trivial = output has a compression pointer, is > 512 bytes, or the frame sits at a non-zero buffer offset; distinct = distinct case text")
+    required_counters = ["c03.write_ok", "c03.has_pointer", "c03.over_16k", "c03.tcp_frames_checked", "c03.tcp_frame_with_pointer", "c03.queries_checked", "c03.built"]
+    PLAN_QUICK = [("C03-gen", 2, 12000, 100), ("C03-mut", 2, 12000, 100), ("C03-build", 5, 12000, 100), ("C03-bigbuild", 3, 500, 100), ("C03-tcp", 3, 12000, 100), ("C03-query", 1, 12000, 100)]
+    FUZZ_QUICK = []
+    PLAN_THOROUGH = [("C03-gen", 2, 300000, 150), ("C03-mut", 2, 300000, 150), ("C03-build", 5, 300000, 150), ("C03-bigbuild", 3, 20000, 100), ("C03-tcp", 3, 300000, 150), ("C03-query", 1, 200000, 100)]
+    FUZZ_THOROUGH = [("C03-build", 2000000, 2048)]
+
+
+class C04(WireCheck):
+    pid = "C04"
+    rule = ("differential against refdns: parser accepts => getter dump == reference lenient extraction (names compared as label bytes after RFC 1035 unescaping); "
+            "reference strict (well-formed within the documented subset) => parser accepts; parser accepts what the reference cannot extract => violation; "
+            "plus presentation-format round trips of generated label bytes through ares_dns_write and the parser. inputs: generated messages over every supported type, "
+            "compression layout, boundary length, OPT extremes, undecoded types with empty/non-empty RDATA, their mutations, raw bytes, and parse-flag sets. "
+            "non-trivial = reference extracted >= 1 RR and both decoders were asked (or a name round trip ran); distinct = distinct case text")
+    required_counters = ["c04.dumps_compared", "c04.ref_strict", "c04.parser_rejects", "c04.has_pointer", "c04.name_roundtrips"]
+    PLAN_QUICK = [("C04-gen", 6, 15000, 100), ("C04-mut", 6, 15000, 100), ("C04-raw", 1, 1500, 100), ("C04-names", 2, 15000, 100)]
+    FUZZ_QUICK = [("C04-mut", 20000, 1024)]
+    PLAN_THOROUGH = [("C04-gen", 6, 500000, 150), ("C04-mut", 6, 500000, 150), ("C04-raw", 1, 40000, 100), ("C04-names", 1, 300000, 100)]
+    FUZZ_THOROUGH = [("C04-mut", 3000000, 2048), ("C04-gen", 3000000, 4096)]
+    CORPUS = FUZZIN
+
+
+class C18(WireCheck):
+    pid = "C18"
+    rule = ("every legacy ares_parse_*_reply function and ares_dns_parse on the same generated / mutated / raw message (answer sections biased towards CNAME chains "
+            "followed by A/AAAA records with independent TTLs), addrttl capacity 0..7 with canaries behind the array; oracle: malformed status iff the record parser rejects, "
+            "else list == records of that type in answer order, field by field (addrttl ttl = min(record, CNAME ttls)), documented no-data status when none; "
+            "non-trivial = at least one record of a parser's own type was compared; distinct = distinct case text")
+    required_counters = ["c18.a_compared", "c18.aaaa_compared", "c18.mx_compared", "c18.txt_compared", "c18.soa_compared", "c18.cname_chain3", "c18.both_reject", "c18.nodata"]
+    PLAN_QUICK = [("C18-gen", 7, 10000, 100), ("C18-mut", 7, 10000, 100), ("C18-raw", 1, 1500, 100)]
+    FUZZ_QUICK = [("C18-mut", 15000, 1024)]
+    PLAN_THOROUGH = [("C18-gen", 7, 300000, 150), ("C18-mut", 7, 300000, 150), ("C18-raw", 1, 30000, 100)]
+    FUZZ_THOROUGH = [("C18-mut", 2000000, 2048)]
+    CORPUS = FUZZIN
+
+
+CHECKS = {"C19": C19, "C02": C02, "C03": C03, "C04": C04, "C18": C18}
